@@ -20,11 +20,21 @@ def load_contracts(d):
     return mod
 
 
-def fn_body(text, item):
+def fn_body(text, item, closure=None):
     m = rs.mask(text)
     it = rs.find_item(text, item, m)
     if it.body_open < 0:
         raise rs.ScanError("no body")
+    if closure:
+        # the body of a closure literal inside the fn: regex ends at the closure's opening brace
+        mm = re.search(closure, text[it.body_open:it.body_close])
+        if not mm:
+            raise rs.ScanError("closure anchor %r not found in %s" % (closure, item))
+        o = it.body_open + mm.end() - 1
+        if m[o] != "{":
+            raise rs.ScanError("closure anchor does not end at '{'")
+        c = rs.match_close(m, o)
+        return text[o + 1:c], text[it.attr_end:it.body_open]
     # strip comments from the body (kept out of the parser)
     return text[it.body_open + 1:it.body_close], text[it.attr_end:it.body_open]
 
@@ -99,7 +109,7 @@ def run_unit(name, mod, only_props, tier):
         ob = new_ob(_slug(fname), " :: ".join(c["item"]), c.get("clause", "postcondition polynomials lie in the ideal of the hypotheses (see contracts.py)"))
         t0 = time.time()
         try:
-            body, header = fn_body(read(c.get("file", mod.FILE)), c["item"])
+            body, header = fn_body(read(c.get("file", mod.FILE)), c["item"], c.get("closure"))
             info["edits"].append("extract body of %s :: %s (comments dropped; parsed by polyvc)" % (c.get("file", mod.FILE), " :: ".join(c["item"])))
             results = []
             cases = c.get("cases") or [None]
@@ -110,12 +120,19 @@ def run_unit(name, mod, only_props, tier):
                 loc = c["inputs"]()
                 out, loc2 = pv.run_body(env, body, loc)
                 hyps = list(c["hyps"](loc)) + list(env.hyps) + (list(case.get("hyps", lambda l: [])(loc)) if case else [])
-                goals = (case.get("goals") if case and case.get("goals") else c["goals"])(env, out, loc)
+                goals = (case.get("goals") if case and case.get("goals") else c["goals"])(env, out, loc2)
+                hyps = hyps + [h for h in env.hyps if not any(h is x for x in hyps)]
                 for what, p in getattr(env, "pre_obligations", []):
                     goals.append((what, p))
                 for gname, g in goals:
                     okk, rem = pv.in_ideal(g, hyps)
                     results.append(((case or {}).get("name", "") + gname, okk, g, hyps))
+                # completeness goals: must vanish identically after substituting the honest values
+                for gname, g in getattr(env, "completeness", []):
+                    results.append(((case or {}).get("name", "") + gname, sp.expand(g) == 0, g, []))
+                for gname, g, hh in getattr(env, "converse", []):
+                    okk, rem = pv.in_ideal(g, hh)
+                    results.append(((case or {}).get("name", "") + gname, okk, g, hh))
             ob.vcs = len(results)
             bad = [r for r in results if not r[1]]
             if not bad:
